@@ -150,42 +150,144 @@ def _canon_fn(fn):
     return T().visit(fn)
 
 
-def blind(fn, keep_params=False):
-    """(digest of the name-blind dump, local names in order of first occurrence in the dump)"""
-    fn = _canon_fn(fn)
-    loc = set(local_names(fn))
-    order = []
+SCOPES = (ast.Lambda, ast.ListComp, ast.SetComp, ast.DictComp, ast.GeneratorExp, ast.FunctionDef, ast.AsyncFunctionDef)
 
-    def ph(name):
-        if name not in order:
-            order.append(name)
-        return 'v%d' % order.index(name)
-    for n in ast.walk(fn):           # deterministic breadth-first order
-        if isinstance(n, ast.Name) and n.id in loc:
-            n.id = ph(n.id)
-        elif isinstance(n, ast.arg) and n.arg in loc:
-            n.arg = ph(n.arg)
-        elif isinstance(n, ast.ExceptHandler) and n.name in loc:
-            n.name = ph(n.name)
-        elif isinstance(n, (ast.FunctionDef, ast.AsyncFunctionDef)) and n is not fn and n.name in loc:
-            n.name = ph(n.name)
-        elif isinstance(n, ast.keyword) and n.arg in loc and False:
-            pass
+
+def _bound(scope):
+    """names bound directly in this scope (not in nested lambdas / comprehensions / defs)"""
+    names = []
+
+    def add(n):
+        if n not in names:
+            names.append(n)
+
+    def tg(t):
+        if isinstance(t, ast.Name):
+            add(t.id)
+        elif isinstance(t, (ast.Tuple, ast.List)):
+            for e in t.elts:
+                tg(e.value if isinstance(e, ast.Starred) else e)
+    glob = set()
+
+    def args(a):
+        for x in a.posonlyargs + a.args + a.kwonlyargs:
+            add(x.arg)
+        if a.vararg:
+            add(a.vararg.arg)
+        if a.kwarg:
+            add(a.kwarg.arg)
+
+    def walk(n, top=False):
+        if not top and isinstance(n, SCOPES):
+            if isinstance(n, (ast.FunctionDef, ast.AsyncFunctionDef)):
+                add(n.name)
+            return
+        if isinstance(n, ast.Assign):
+            for t in n.targets:
+                tg(t)
+        elif isinstance(n, (ast.AugAssign, ast.AnnAssign, ast.NamedExpr)):
+            tg(n.target)
+        elif isinstance(n, (ast.For, ast.AsyncFor)):
+            tg(n.target)
+        elif isinstance(n, (ast.With, ast.AsyncWith)):
+            for i in n.items:
+                if i.optional_vars is not None:
+                    tg(i.optional_vars)
+        elif isinstance(n, ast.ExceptHandler) and n.name:
+            add(n.name)
+        elif isinstance(n, (ast.Global, ast.Nonlocal)):
+            glob.update(n.names)
+        elif isinstance(n, (ast.Import, ast.ImportFrom)):
+            for a in n.names:
+                add((a.asname or a.name).split('.')[0])
+        for c in ast.iter_child_nodes(n):
+            walk(c)
+    if isinstance(scope, (ast.FunctionDef, ast.AsyncFunctionDef, ast.Lambda)):
+        args(scope.args)
+        for c in (scope.body if isinstance(scope.body, list) else [scope.body]):
+            walk(c)
+    else:   # comprehension
+        for g in scope.generators:
+            tg(g.target)
+            for c in g.ifs:
+                walk(c)
+        for f in ('elt', 'key', 'value'):
+            if hasattr(scope, f):
+                walk(getattr(scope, f))
+    return [n for n in names if n not in glob]
+
+
+def scoped_rename(fn, mapper):
+    """rewrite, in place, every occurrence of a locally bound name of fn; mapper(scope index, name) -> new name. Lambdas, comprehensions
+    and nested defs are scopes of their own (numbered in traversal order), so a name reused in a lambda and in the function body is two
+    different variables - exactly as Python sees them."""
+    counter = [0]
+
+    def visit(node, stack):
+        if isinstance(node, SCOPES):
+            idx = counter[0]
+            counter[0] += 1
+            if isinstance(node, (ast.FunctionDef, ast.AsyncFunctionDef)) and stack:
+                ren_name(node, 'name', stack)            # the def's own name is bound in the enclosing scope
+            inner = stack + [(idx, set(_bound(node)))]
+            if isinstance(node, (ast.FunctionDef, ast.AsyncFunctionDef, ast.Lambda)):
+                for d in node.args.defaults + [d for d in node.args.kw_defaults if d is not None]:
+                    visit(d, stack)
+                for a in node.args.posonlyargs + node.args.args + node.args.kwonlyargs + [x for x in (node.args.vararg, node.args.kwarg) if x]:
+                    ren_name(a, 'arg', inner)
+                if isinstance(node, ast.Lambda):
+                    visit(node.body, inner)
+                else:
+                    for d in node.decorator_list:
+                        visit(d, stack)
+                    for s in node.body:
+                        visit(s, inner)
+            else:
+                for i, g in enumerate(node.generators):
+                    visit(g.iter, stack if i == 0 else inner)
+                    visit(g.target, inner)
+                    for c in g.ifs:
+                        visit(c, inner)
+                for f in ('elt', 'key', 'value'):
+                    if hasattr(node, f):
+                        visit(getattr(node, f), inner)
+            return
+        if isinstance(node, ast.Name):
+            ren_name(node, 'id', stack)
+            return
+        if isinstance(node, ast.ExceptHandler) and node.name:
+            ren_name(node, 'name', stack)
+        for c in ast.iter_child_nodes(node):
+            visit(c, stack)
+
+    def ren_name(node, field, stack):
+        name = getattr(node, field)
+        for idx, bound in reversed(stack):
+            if name in bound:
+                setattr(node, field, mapper(idx, name))
+                return
+    visit(fn, [])
+
+
+def blind(fn):
+    """(digest of the name-blind dump, {scope index: local names in order of first occurrence})"""
+    fn = _canon_fn(fn)
+    order = {}
+
+    def ph(idx, name):
+        o = order.setdefault(idx, [])
+        if name not in o:
+            o.append(name)
+        return 's%dv%d' % (idx, o.index(name))
+    scoped_rename(fn, ph)
     fn.name = 'f'
     d = ast.dump(fn, annotate_fields=False, include_attributes=False)
-    return hashlib.sha1(d.encode()).hexdigest(), order
+    return hashlib.sha1(d.encode()).hexdigest(), [order.get(i, []) for i in range(max(order) + 1)] if order else []
 
 
 def rename_locals(fn, mapping):
-    for n in ast.walk(fn):
-        if isinstance(n, ast.Name) and n.id in mapping:
-            n.id = mapping[n.id]
-        elif isinstance(n, ast.arg) and n.arg in mapping:
-            n.arg = mapping[n.arg]
-        elif isinstance(n, ast.ExceptHandler) and n.name in mapping:
-            n.name = mapping[n.name]
-        elif isinstance(n, (ast.FunctionDef, ast.AsyncFunctionDef)) and n is not fn and n.name in mapping:
-            n.name = mapping[n.name]
+    """mapping = {scope index: {current name: reference name}}"""
+    scoped_rename(fn, lambda idx, name: mapping.get(idx, {}).get(name, name))
 
 
 def functions_of(tree, mod):
@@ -198,39 +300,142 @@ def functions_of(tree, mod):
                     yield '%s:%s.%s' % (mod, n.name, b.name), b
 
 
-def normalise_module(tree, mod, use_reference=True, stats=None):
-    # 1 + 2
-    for n in ast.walk(tree):
-        if isinstance(n, (ast.FunctionDef, ast.AsyncFunctionDef)):
-            n.body = flatten_block(n.body)
-    link_siblings(tree)
-    # 3
-    if not use_reference:
+def _header(s):
+    """a statement without its nested blocks (compound statements are compared by their header)"""
+    if isinstance(s, (ast.If, ast.While)):
+        return ast.Expr(value=ast.Tuple(elts=[ast.Constant(type(s).__name__), s.test], ctx=ast.Load()))
+    if isinstance(s, (ast.For, ast.AsyncFor)):
+        return ast.Expr(value=ast.Tuple(elts=[ast.Constant('for'), s.target, s.iter], ctx=ast.Load()))
+    if isinstance(s, (ast.With, ast.AsyncWith)):
+        return ast.Expr(value=ast.Tuple(elts=[ast.Constant('with')] + [i.context_expr for i in s.items], ctx=ast.Load()))
+    if isinstance(s, ast.Try):
+        return None
+    if isinstance(s, (ast.FunctionDef, ast.AsyncFunctionDef, ast.ClassDef)):
+        return None
+    return s
+
+
+def statements(fn):
+    out = []
+
+    def blk(stmts):
+        for s in stmts:
+            h = _header(s)
+            if h is not None:
+                out.append(h)
+            for f in ('body', 'orelse', 'finalbody'):
+                v = getattr(s, f, None)
+                if isinstance(v, list) and v and isinstance(v[0], ast.stmt) and not isinstance(s, (ast.FunctionDef, ast.AsyncFunctionDef, ast.ClassDef)):
+                    blk(v)
+            if isinstance(s, ast.Try):
+                for hd in s.handlers:
+                    blk(hd.body)
+    blk(_body_of(fn))
+    return out
+
+
+def stmt_blind(s, loc):
+    """(digest, names in order of first occurrence) of one statement with the function's local names made anonymous"""
+    from .au import canon
+    s = copy.deepcopy(s)
+    order = []
+    for n in ast.walk(s):
+        if isinstance(n, ast.Name) and n.id in loc:
+            if n.id not in order:
+                order.append(n.id)
+            n.id = 'v%d' % order.index(n.id)
+        elif isinstance(n, ast.arg) and n.arg in loc:
+            if n.arg not in order:
+                order.append(n.arg)
+            n.arg = 'v%d' % order.index(n.arg)
+    try:
+        if isinstance(s, ast.Expr) and isinstance(s.value, ast.Tuple) and len(s.value.elts) == 2 and isinstance(s.value.elts[0], ast.Constant):
+            s.value.elts[1] = canon(s.value.elts[1])
+    except Exception:
+        pass
+    return hashlib.sha1(ast.dump(s, annotate_fields=False, include_attributes=False).encode()).hexdigest()[:16], order
+
+
+def vote_rename(fn, r, stats, key):
+    """the function differs from its reference by more than a renaming: names that are new (not in the reference) are mapped onto
+    reference names that disappeared, by agreement of the statements that are identical up to names. Any injective, capture-free
+    renaming of local identifiers preserves behaviour, so the heuristic only decides WHICH renaming is applied, never its soundness."""
+    ref_names = set(n for o in r['names'] for n in o)
+    loc = set(local_names(fn))
+    all_ids = {n.id for n in ast.walk(fn) if isinstance(n, ast.Name)} | loc
+    new = [n for n in loc if n not in ref_names]
+    gone = [n for n in ref_names if n not in all_ids]
+    if not new or not gone:
         return
-    ref = reference().get('functions', {})
-    for key, fn in functions_of(tree, mod):
-        r = ref.get(key)
-        if r is None:
-            # the function may have moved to another module: unique reference entry with the same qualified name
-            q = key.split(':', 1)[1]
-            c = [k for k in ref if k.split(':', 1)[1] == q]
-            r = ref[c[0]] if len(c) == 1 else None
-        if r is None:
-            continue
-        h, order = blind(fn)
-        if h == r['blind'] and order != r['names'] and len(order) == len(r['names']):
-            mapping = {a: b for a, b in zip(order, r['names']) if a != b}
-            # keyword arguments at call sites elsewhere name parameters: renaming parameters of a function would desynchronise them,
-            # so parameters are only mapped when no call in the package passes them by keyword (checked by the caller of this pass)
-            rename_locals(fn, _two_phase(mapping))
-            rename_locals(fn, {('\0' + b): b for b in mapping.values()})
-            if stats is not None:
-                stats.append((key, len(mapping)))
+    votes = {}
+    refst = {}
+    for d, names in r.get('stmts', []):
+        refst.setdefault(d, []).append(names)
+    for s in statements(fn):
+        d, names = stmt_blind(s, loc)
+        for rn in refst.get(d, []):
+            if len(rn) == len(names):
+                for a, b in zip(names, rn):
+                    if a in new and b in gone:
+                        votes[(a, b)] = votes.get((a, b), 0) + 1
+                    elif a != b and (a in new or b in gone):
+                        votes[(a, b)] = votes.get((a, b), 0) - 1
+    mapping, used = {}, set()
+    for (a, b), v in sorted(votes.items(), key=lambda kv: (-kv[1], kv[0])):
+        if v > 0 and a not in mapping and b not in used and a in new and b in gone:
+            mapping[a] = b
+            used.add(b)
+    if not mapping:
+        return
+    for n in ast.walk(fn):
+        if isinstance(n, (ast.Global, ast.Nonlocal)) and set(n.names) & set(mapping):
+            return
+    for n in ast.walk(fn):
+        if isinstance(n, ast.Name) and n.id in mapping:
+            n.id = mapping[n.id]
+        elif isinstance(n, ast.arg) and n.arg in mapping:
+            n.arg = mapping[n.arg]
+        elif isinstance(n, ast.ExceptHandler) and n.name in mapping:
+            n.name = mapping[n.name]
+        elif isinstance(n, (ast.FunctionDef, ast.AsyncFunctionDef)) and n is not fn and n.name in mapping:
+            n.name = mapping[n.name]
+    if stats is not None:
+        stats.append((key, 'renamed %s' % sorted(mapping.items())))
 
 
-def _two_phase(mapping):
-    """rename through temporary names so that swaps (a->b, b->a) are safe"""
-    return {a: '\0' + b for a, b in mapping.items()}
+def normalise_repo(trees, use_reference=True, stats=None):
+    for tree in trees.values():
+        for n in ast.walk(tree):
+            if isinstance(n, (ast.FunctionDef, ast.AsyncFunctionDef)):
+                n.body = flatten_block(n.body)
+    if use_reference and reference().get('functions'):
+        ref = reference()['functions']
+        inline_new_helpers(trees, ref, stats)
+        for mod, tree in trees.items():
+            for key, fn in functions_of(tree, mod):
+                r = ref.get(key)
+                if r is None:
+                    # the function may have moved to another module: unique reference entry with the same qualified name
+                    q = key.split(':', 1)[1]
+                    c = [k for k in ref if k.split(':', 1)[1] == q]
+                    r = ref[c[0]] if len(c) == 1 else None
+                if r is None:
+                    continue
+                h, order = blind(fn)
+                fn._drift = (h != r['blind'])
+                if h == r['blind']:
+                    if order != r['names'] and [len(o) for o in order] == [len(o) for o in r['names']]:
+                        mapping = {i: {a: b for a, b in zip(o, ro) if a != b} for i, (o, ro) in enumerate(zip(order, r['names']))}
+                        mapping = {i: m for i, m in mapping.items() if m}
+                        # two phases through temporary names so that swaps (a->b, b->a) are safe
+                        rename_locals(fn, {i: {a: '\0' + b for a, b in m.items()} for i, m in mapping.items()})
+                        rename_locals(fn, {i: {'\0' + b: b for b in m.values()} for i, m in mapping.items()})
+                        if stats is not None:
+                            stats.append((key, 'alpha %d' % sum(len(m) for m in mapping.values())))
+                else:
+                    vote_rename(fn, r, stats, key)
+    for tree in trees.values():
+        link_siblings(tree)
 
 
 def make_reference(trees):
@@ -238,5 +443,323 @@ def make_reference(trees):
     for mod, tree in trees.items():
         for key, fn in functions_of(tree, mod):
             h, order = blind(fn)
-            out[key] = dict(blind=h, names=order)
+            loc = set(local_names(fn))
+            out[key] = dict(blind=h, names=order, stmts=[list(stmt_blind(s, loc)) for s in statements(fn)])
     return dict(functions=out)
+
+
+# ------------------------------------------------------------------------------------------- 4. inlining of NEW private helpers
+# A refactoring that extracts a helper moves the construct a rule looks at out of the anchored function. Functions that do not exist in
+# the reference snapshot are therefore inlined back at their call sites (a behaviour-preserving rewrite in its own right, whatever the
+# helper contains), so that the rules - and the mutants hidden inside a new helper - are judged on the code that actually runs.
+PURE_CALLS = {'len', 'int', 'str', 'float', 'bool', 'type', 'isinstance', 'tuple', 'list', 'set', 'sorted', 'abs', 'min', 'max', 'dict', 'range', 'zip',
+              'as_list', 'as_tuple', 'is_int', 'is_str', 'is_num', 'is_date', 'is_pd', 'is_df', 'is_arr', 'is_ts', 'is_series', 'is_nan'}
+
+
+def _simple(e):
+    """an argument that can be substituted for a parameter any number of times: a name, a constant, or an attribute chain on a name"""
+    while isinstance(e, ast.Attribute):
+        e = e.value
+    return isinstance(e, (ast.Name, ast.Constant))
+
+
+def _pure(e):
+    for n in ast.walk(e):
+        if isinstance(n, ast.Call):
+            f = n.func
+            nm = f.id if isinstance(f, ast.Name) else (f.attr if isinstance(f, ast.Attribute) else None)
+            if nm not in PURE_CALLS and nm not in ('lower', 'upper', 'keys', 'values', 'items', 'get', 'startswith', 'endswith'):
+                return False
+        elif isinstance(n, (ast.Lambda, ast.Yield, ast.YieldFrom, ast.Await, ast.NamedExpr)):
+            return False
+    return True
+
+
+def _names_read(node):
+    return {n.id for n in ast.walk(node) if isinstance(n, ast.Name)}
+
+
+class _Subst(ast.NodeTransformer):
+    def __init__(self, env, star=None):
+        self.env, self.star = env, star or {}
+
+    def visit_Name(self, n):
+        if n.id in self.env and isinstance(n.ctx, ast.Load):
+            return copy.deepcopy(self.env[n.id])
+        return n
+
+    def visit_Call(self, n):
+        self.generic_visit(n)
+        args = []
+        for a in n.args:
+            if isinstance(a, ast.Starred) and isinstance(a.value, ast.Tuple) and getattr(a.value, '_spliced', False):
+                args.extend(a.value.elts)
+            else:
+                args.append(a)
+        n.args = args
+        return n
+
+
+def _helper_ok(h):
+    a = h.args
+    if h.decorator_list or a.kwarg or a.posonlyargs or a.kwonlyargs:
+        return False
+    for n in ast.walk(h):
+        if isinstance(n, (ast.Yield, ast.YieldFrom, ast.Await, ast.Global, ast.Nonlocal)):
+            return False
+        if isinstance(n, (ast.FunctionDef, ast.AsyncFunctionDef, ast.ClassDef)) and n is not h:
+            return False
+    return True
+
+
+def _bind(h, call, is_method):
+    """{param: argument expression} or None when the call cannot be matched to the signature"""
+    a = h.args
+    params = [x.arg for x in a.args]
+    if is_method:
+        params = params[1:]
+    if any(isinstance(x, ast.Starred) for x in call.args) or any(k.arg is None for k in call.keywords):
+        return None
+    env = {}
+    pos = list(call.args)
+    if len(pos) > len(params) and not a.vararg:
+        return None
+    for p, v in zip(params, pos):
+        env[p] = v
+    extra = pos[len(params):]
+    for k in call.keywords:
+        if k.arg in env or k.arg not in params:
+            return None
+        env[k.arg] = k.value
+    defaults = dict(zip([x.arg for x in a.args][len(a.args) - len(a.defaults):], a.defaults))
+    for p in params:
+        if p not in env:
+            if p not in defaults:
+                return None
+            env[p] = defaults[p]
+    if a.vararg:
+        t = ast.Tuple(elts=list(extra), ctx=ast.Load())
+        t._spliced = True
+        env[a.vararg.arg] = t
+    return env
+
+
+def _body_of(h):
+    b = list(h.body)
+    if b and isinstance(b[0], ast.Expr) and isinstance(b[0].value, ast.Constant) and isinstance(b[0].value.value, str):
+        b = b[1:]
+    return b
+
+
+def _use_count(body, name):
+    c = 0
+    inloop = False
+    for s in body:
+        for n in ast.walk(s):
+            if isinstance(n, ast.Name) and n.id == name and isinstance(n.ctx, ast.Load):
+                c += 1
+        for n in ast.walk(s):
+            if isinstance(n, (ast.For, ast.While, ast.ListComp, ast.SetComp, ast.DictComp, ast.GeneratorExp, ast.Lambda)):
+                if any(isinstance(m, ast.Name) and m.id == name for m in ast.walk(n)):
+                    inloop = True
+    return c, inloop
+
+
+def _assigned(body):
+    out = set()
+    for s in body:
+        out |= set(_bound(ast.FunctionDef(name='_', args=ast.arguments(posonlyargs=[], args=[], kwonlyargs=[], kw_defaults=[], defaults=[]), body=[s], decorator_list=[])))
+    return out
+
+
+def _stamp(nodes, at, src):
+    k = [0]
+    for top in nodes:
+        for n in ast.walk(top):
+            if hasattr(n, 'lineno') or isinstance(n, (ast.expr, ast.stmt)):
+                n._src = src + (getattr(n, 'lineno', 0),)
+                n.lineno = at.lineno
+                n.end_lineno = getattr(at, 'end_lineno', at.lineno)
+                k[0] += 1
+                n.col_offset = getattr(at, 'col_offset', 0) + k[0] / 10000.0
+                n.end_col_offset = n.col_offset
+
+
+def _expand(h, call, caller_locals, is_method, self_expr=None):
+    """(binding statements, body statements) of helper h specialised to this call, or None"""
+    env = _bind(h, call, is_method)
+    if env is None:
+        return None
+    body = copy.deepcopy(_body_of(h))
+    assigned = _assigned(body)
+    if is_method:
+        env[h.args.args[0].arg] = self_expr
+    binds = []
+    sub = {}
+    for p, v in env.items():
+        spliced = getattr(v, '_spliced', False)
+        if p in assigned:
+            if isinstance(v, ast.Name) and v.id == p:
+                continue
+            binds.append(ast.Assign(targets=[ast.Name(id=p, ctx=ast.Store())], value=copy.deepcopy(v)))
+            continue
+        if _simple(v) or spliced and all(_simple(e) for e in v.elts):
+            sub[p] = v
+            continue
+        cnt, inloop = _use_count(body, p)
+        if cnt <= 1 and not inloop or _pure(v):
+            sub[p] = v
+        else:
+            binds.append(ast.Assign(targets=[ast.Name(id=p, ctx=ast.Store())], value=copy.deepcopy(v)))
+    # names the helper binds must not clobber the caller's variables, and its free names must mean the same in the caller
+    hl = (assigned | {b.targets[0].id for b in binds}) - set(sub)
+    free = set()
+    for s in body:
+        free |= _names_read(s)
+    free -= assigned | set(env)
+    if free & caller_locals:
+        return None
+    ren = {n: n + '_' for n in hl & caller_locals if n not in env}
+    if ren:
+        for s in body:
+            for n in ast.walk(s):
+                if isinstance(n, ast.Name) and n.id in ren:
+                    n.id = ren[n.id]
+    body = [_Subst(sub).visit(s) for s in body]
+    return binds, body
+
+
+def _returns(body):
+    return [n for s in body for n in ast.walk(s) if isinstance(n, ast.Return)]
+
+
+def inline_new_helpers(trees, ref, stats=None, rounds=3):
+    known = set(k.split(':', 1)[1] for k in ref)
+    for _ in range(rounds):
+        helpers, methods = {}, {}
+        imports = {}
+        for mod, tree in trees.items():
+            for n in tree.body:
+                if isinstance(n, ast.FunctionDef) and n.name not in known and _helper_ok(n):
+                    helpers[(mod, n.name)] = n
+                elif isinstance(n, ast.ClassDef):
+                    for b in n.body:
+                        if isinstance(b, ast.FunctionDef) and '%s.%s' % (n.name, b.name) not in known and _helper_ok(b) and b.args.args:
+                            methods[(mod, n.name, b.name)] = b
+                elif isinstance(n, ast.ImportFrom) and n.module and n.module.startswith('pyg_base'):
+                    for a in n.names:
+                        imports[(mod, a.asname or a.name)] = (n.module.split('.')[-1], a.name)
+        if not helpers and not methods:
+            return
+        changed = False
+        for mod, tree in trees.items():
+            for key, fn in functions_of(tree, mod):
+                cls = key.split(':', 1)[1].split('.')[0] if '.' in key.split(':', 1)[1] else None
+
+                def lookup(call):
+                    f = call.func
+                    if isinstance(f, ast.Name):
+                        h = helpers.get((mod, f.id)) or helpers.get(imports.get((mod, f.id), (None, None)))
+                        return (h, False, None) if h is not None and h is not fn else None
+                    if isinstance(f, ast.Attribute) and isinstance(f.value, ast.Name) and f.value.id == 'self' and cls:
+                        h = methods.get((mod, cls, f.attr))
+                        return (h, True, f.value) if h is not None and h is not fn else None
+                    return None
+                if _inline_in(fn, lookup, key, stats):
+                    fn.body = flatten_block(fn.body)
+                    changed = True
+        if not changed:
+            return
+
+
+def _inline_in(fn, lookup, key, stats):
+    changed = [False]
+    caller_locals = set(local_names(fn))
+
+    def note(h):
+        changed[0] = True
+        if stats is not None:
+            stats.append((key, 'inlined ' + h.name))
+
+    def block(stmts):
+        out = []
+        for s in stmts:
+            for f in ('body', 'orelse', 'finalbody'):
+                v = getattr(s, f, None)
+                if isinstance(v, list) and v and isinstance(v[0], ast.stmt) and not isinstance(s, (ast.FunctionDef, ast.AsyncFunctionDef, ast.ClassDef)):
+                    setattr(s, f, block(v))
+            if isinstance(s, ast.Try):
+                for hd in s.handlers:
+                    hd.body = block(hd.body)
+            rep = stmt(s)
+            out.extend(rep if rep is not None else [s])
+        return out
+
+    def stmt(s):
+        # statement forms: return h(..) / x = h(..) / h(..)
+        call = None
+        if isinstance(s, (ast.Return, ast.Expr)) and isinstance(s.value, ast.Call):
+            call = s.value
+        elif isinstance(s, ast.Assign) and len(s.targets) == 1 and isinstance(s.value, ast.Call):
+            call = s.value
+        if call is not None:
+            hit = lookup(call)
+            if hit:
+                h, is_method, self_expr = hit
+                body0 = _body_of(h)
+                rets = _returns(body0)
+                single_tail = len(rets) == 1 and body0 and body0[-1] is rets[0]
+                if isinstance(s, ast.Return) or single_tail or not rets:
+                    ex = _expand(h, call, caller_locals, is_method, self_expr)
+                    if ex is not None:
+                        binds, body = ex
+                        if isinstance(s, ast.Return):
+                            new = binds + body
+                            if not terminates(body):
+                                new.append(ast.Return(value=None))
+                        else:
+                            last = body[-1] if body and isinstance(body[-1], ast.Return) else None
+                            core_ = body[:-1] if last is not None else body
+                            val = last.value if last is not None and last.value is not None else ast.Constant(value=None)
+                            if isinstance(s, ast.Assign):
+                                tail = [ast.Assign(targets=s.targets, value=val)]
+                            else:
+                                tail = [] if _simple(val) else [ast.Expr(value=val)]
+                            new = binds + core_ + tail
+                        _stamp(new, s, (h.name,))
+                        ast.fix_missing_locations(ast.Module(body=new, type_ignores=[]))
+                        note(h)
+                        return new
+        # expression form: single-return helpers anywhere inside the statement (own expressions only, not nested blocks)
+        class E(ast.NodeTransformer):
+            def visit_Call(self, c):
+                self.generic_visit(c)
+                hit = lookup(c)
+                if not hit:
+                    return c
+                h, is_method, self_expr = hit
+                b = _body_of(h)
+                if len(b) != 1 or not isinstance(b[0], ast.Return) or b[0].value is None:
+                    return c
+                ex = _expand(h, c, caller_locals, is_method, self_expr)
+                if ex is None or ex[0]:
+                    return c
+                e = ex[1][0].value
+                _stamp([e], c, (h.name,))
+                note(h)
+                return e
+
+            def generic_visit(self, node):
+                for field, old in ast.iter_fields(node):
+                    if field in ('body', 'orelse', 'finalbody', 'handlers') and isinstance(old, list) and old and isinstance(old[0], (ast.stmt, ast.ExceptHandler)):
+                        continue            # nested blocks are handled by block()
+                    if isinstance(old, list):
+                        old[:] = [self.visit(v) if isinstance(v, ast.AST) else v for v in old]
+                    elif isinstance(old, ast.AST):
+                        setattr(node, field, self.visit(old))
+                return node
+        if not isinstance(s, (ast.FunctionDef, ast.AsyncFunctionDef, ast.ClassDef)):
+            E().generic_visit(s)
+        return None
+    fn.body = block(fn.body)
+    return changed[0]
